@@ -116,6 +116,7 @@ func MatchFunctionsByTopology(oldResults, newResults []FingerprintResult, thresh
 			oldIdx int
 			newIdx int
 			sim    float64
+			sameFP bool // identical fingerprint: the body is unchanged, only the name differs
 		}
 
 		// Optimization: Group new functions by FuzzyHash.
@@ -146,15 +147,21 @@ func MatchFunctionsByTopology(oldResults, newResults []FingerprintResult, thresh
 
 					sim := topology.TopologySimilarity(oldTopo, newTopo)
 					if sim >= threshold {
-						candidates = append(candidates, candidate{i, j, sim})
+						sameFP := unmatchedOld[i].Fingerprint == unmatchedNew[j].Fingerprint
+						candidates = append(candidates, candidate{i, j, sim, sameFP})
 					}
 				}
 			}
 		}
 
 		// Use sort.SliceStable for deterministic ordering.
+		// Among equally similar candidates prefer the one whose body is unchanged,
+		// so that a pure rename is paired with itself and not with a same-shape sibling.
 		sort.SliceStable(candidates, func(i, j int) bool {
-			return candidates[i].sim > candidates[j].sim
+			if candidates[i].sim != candidates[j].sim {
+				return candidates[i].sim > candidates[j].sim
+			}
+			return candidates[i].sameFP && !candidates[j].sameFP
 		})
 
 		usedOld := make(map[int]bool)
